@@ -4,7 +4,7 @@ import random
 
 from harness import lib_graph as G
 
-PROFILES = ["mixed", "o2m", "tree", "m2m", "cycle", "inherit", "oneway", "oneway", "graph", "graph", "unit", "unit", "peer", "peer", "owner", "owner", "composite", "composite"]
+PROFILES = ["mixed", "o2m", "tree", "m2m", "cycle", "inherit", "oneway", "oneway", "graph", "graph", "unit", "unit", "peer", "peer", "owner", "owner", "composite", "composite", "chain", "chain"]
 
 
 def first_failure(res):
@@ -56,6 +56,12 @@ def run_random(pid, seed, tag, nchunks, per, sizes, capture=False, procs=6):
     return [c for chunk in res for c in chunk]
 
 
-def replay_case(rounds):
-    res = G.run_case(rounds)
-    return res, first_failure(res)
+def replay_case(rounds, attempts=1):
+    """attempts > 1: the unit of work iterates sets of instance states (hashed by address), so a
+    failure that depends on that order shows only in some executions of the same history"""
+    for _ in range(max(1, attempts)):
+        res = G.run_case(rounds)
+        f = first_failure(res)
+        if f is not None:
+            break
+    return res, f
